@@ -65,6 +65,7 @@ type sendPkt struct {
 func runAppSendCase(t *testing.T, w *bufio.Writer, r *rand.Rand, id string, senders, perSender int) {
 	cli, srv := net.Pipe()
 	var got []string
+	var heldBlocks [][]byte
 	done := make(chan string, 1)
 	rx := appface.VerifNewStreamFaceOnConn(srv, func(rd enc.ParseReader) error {
 		b, err := rd.ReadWire(rd.Length())
@@ -72,7 +73,7 @@ func runAppSendCase(t *testing.T, w *bufio.Writer, r *rand.Rand, id string, send
 			got = append(got, "readerr")
 			return nil
 		}
-		got = append(got, hex.EncodeToString(b.Join()))
+		heldBlocks = append(heldBlocks, b.Join()) // held, not copied: encoded only after the stream has ended
 		return nil
 	}, func(e error) error {
 		switch e {
@@ -157,6 +158,9 @@ func runAppSendCase(t *testing.T, w *bufio.Writer, r *rand.Rand, id string, send
 	}
 	for i := 0; i < 2000 && rx.IsRunning(); i++ {
 		time.Sleep(time.Millisecond)
+	}
+	for _, b := range heldBlocks {
+		got = append(got, hex.EncodeToString(b))
 	}
 	for _, x := range got {
 		fmt.Fprintf(w, "G %s\n", x)
